@@ -35,6 +35,7 @@ import (
 	"fmt"
 	"math"
 	"strconv"
+	"strings"
 
 	"github.com/XiaoMi/Gaea/mysql"
 	"github.com/XiaoMi/Gaea/util"
@@ -43,38 +44,75 @@ import (
 var p = &mysql.Field{Name: []byte("?")}
 var c = &mysql.Field{}
 
+// CalcParams finds the parameter markers of a statement: every '?' that is not part of a string literal,
+// a quoted identifier or a comment (the lexical rules of the default sql_mode).
 func CalcParams(sql string) (count int, offsets []int, sqlItems []string, err error) {
-	quoteChar := ""
 	offsets = make([]int, 0)
 	sqlItems = make([]string, 0)
 	subBeginIndex := 0
+	n := len(sql)
 
-	for i, elem := range []byte(sql) {
-		if elem == '\\' {
-			continue
-		} else if elem == '"' || elem == '\'' {
-			if quoteChar == "" {
-				quoteChar = string(elem)
-			} else if quoteChar == string(elem) {
-				quoteChar = ""
+	for i := 0; i < n; {
+		ch := sql[i]
+		switch {
+		case ch == '\'' || ch == '"' || ch == '`':
+			// string literal or quoted identifier: it ends at the next quote of its own kind that is
+			// neither doubled nor (inside strings) escaped by a backslash
+			j := i + 1
+			closed := false
+			for j < n {
+				if sql[j] == '\\' && ch != '`' {
+					j += 2
+					continue
+				}
+				if sql[j] == ch {
+					if j+1 < n && sql[j+1] == ch {
+						j += 2
+						continue
+					}
+					closed = true
+					j++
+					break
+				}
+				j++
 			}
-		} else if quoteChar == "" && elem == '?' {
+			// quote char not match
+			if !closed {
+				err = fmt.Errorf("fatal situation")
+				return
+			}
+			i = j
+		case ch == '#', ch == '-' && i+2 < n && sql[i+1] == '-' && (sql[i+2] == ' ' || sql[i+2] == '\t' || sql[i+2] == '\n' || sql[i+2] == '\r'):
+			// comment up to the end of the line
+			for i < n && sql[i] != '\n' {
+				i++
+			}
+		case ch == '/' && i+1 < n && sql[i+1] == '*':
+			if i+2 < n && sql[i+2] == '!' {
+				// the body of a version comment is statement text
+				i += 3
+				continue
+			}
+			j := strings.Index(sql[i+2:], "*/")
+			if j < 0 {
+				i = n
+			} else {
+				i += 2 + j + 2
+			}
+		case ch == '?':
 			count++
 			offsets = append(offsets, i)
 			sqlItems = append(sqlItems, sql[subBeginIndex:i], "?")
 			subBeginIndex = i + 1
+			i++
+		default:
+			i++
 		}
 	}
 
 	// sub string behind the last "?", eg: select * from t where id = ? limit 1
 	if subBeginIndex != len(sql) {
 		sqlItems = append(sqlItems, sql[subBeginIndex:])
-	}
-
-	// quote char not match
-	if quoteChar != "" {
-		err = fmt.Errorf("fatal situation")
-		return
 	}
 
 	return
